@@ -347,6 +347,11 @@ fn run_shard(ctx: &ShardCtx) {
     });
 }
 
+/// replay of a structured stream case (also used for C03 regressions in that form)
+pub fn replay_stream(case: &Value) -> Verdict {
+    replay("stream-cli", case)
+}
+
 fn replay(sub: &str, case: &Value) -> Verdict {
     if sub == "stream-cli" {
         let c = Case {
